@@ -1,7 +1,6 @@
 package restoresim
 
 import (
-	"context"
 	"fmt"
 	"sort"
 	"testing"
@@ -28,7 +27,7 @@ func TestVerifSim(t *testing.T) {
 			"byte stream between exporter and importer: in-memory, owned by the simulator",
 			"disk: in-memory FS; crash = CrashClone at a WAL-sync boundary or at an importer read",
 		},
-		Rule: "each run builds a random source store (1-4 channels in the exported hash slot + 1-2 in another; exact/plain appends, uncommitted suffixes, checkpoints above and below the cut, retention trims, suffix truncation, epochs, cursors; random typed metadata incl. rows of tables excluded from backups), exports both slots with the real exporters, restores into a fresh (optionally pre-populated) node, then injects one scenario: none / crash at enumerated WAL-sync points or at an importer read, then retry / a corrupted stream / short reads / a stream I/O error followed by cleanup and retry. Non-trivial = the export carried at least one message row and one metadata row and the scenario's fault (if any) actually fired.",
+		Rule: "each run builds a random source store (1-4 channels in the exported hash slot + 1-2 in another; exact/plain appends, uncommitted suffixes, stored checkpoints at or below the exported cut, cuts up to the log end, retention trims, suffix truncation, epochs, cursors; random typed metadata incl. rows of tables excluded from backups), exports both slots with the real exporters, restores into a fresh (optionally pre-populated) node and judges the result (model, typed metadata reads against the source, byte-identical re-export, continuation at the watermark), then injects one scenario: none (second import, restore over an older generation of the slot, discard back to the raw pre-import state) / crash at every (<=8 commits) or sampled WAL-sync boundary, or at an importer read, each image reopened and retried / 1-5 corrupted, truncated or mismatched streams / short reads / a stream I/O error followed by cleanup and retry. One run in three lets retention trim under an uncommitted tail. Non-trivial = the export carried at least one message row and one metadata row and the scenario's fault (if any) actually fired.",
 		Assumptions: []string{
 			"Pebble and its MemFS crash model are trusted; crash clones keep either all (process kill) or none (power loss) of the unsynced bytes because MemFS.CrashClone is not reproducible for intermediate percentages",
 			"WAL-sync crash ordinals are only used when the import fits the first memtable (no WAL rotation); larger imports crash at importer reads, i.e. between commits",
@@ -561,8 +560,6 @@ func (h *harness) sameAs(n *node, want nodeDump, class, sig, what string) bool {
 	}
 	return true
 }
-
-var _ = context.Background
 
 // exportEarly takes a backup of slot A in the middle of the source history, cut
 // at every channel's stored checkpoint. It later serves as the stale content of
